@@ -29,6 +29,20 @@ Fixpoint chainb (dec : N -> dres) (adj decode_len start : N) (l : list (N * kind
       chainb dec adj decode_len (start + step) r
   end.
 
+(* where the listed chain ends: the offset after the last listed instruction *)
+Fixpoint chain_end (dec : N -> dres) (adj start : N) (l : list (N * kind)) : N :=
+  match l with
+  | [] => start
+  | (o, k) :: r =>
+      let step := match k with KValid => match dec o with DOk len => len | _ => 0 end | KInvalid => adj end in
+      chain_end dec adj (start + step) r
+  end.
+(* "a listing of the requested bytes": it ends only where the requested length is reached or the binary's bytes run out - not in front of an
+   instruction (decodable or not) that starts inside the requested length *)
+Definition complete (dec : N -> dres) (adj decode_len : N) (l : list (N * kind)) : bool :=
+  let e := chain_end dec adj 0 l in
+  (decode_len <=? e) || match dec e with DExhausted _ => true | _ => false end.
+
 Definition oracle_ok (nbytes : N) (l : list (N * dres)) : bool :=
   forallb (fun '(o, r) => match r with
                           | DOk len => (0 <? len) && (o + len <=? nbytes)
@@ -53,7 +67,7 @@ Definition verdict (c : arch * N * N * bool * option N * N * N * list (N * dres)
       (if has_invalid listed || negb (dl =? size) || negb (align_start a start =? start) then 10 else 0) +
       (if negb (oracle_ok nbytes oracle) || ((window <? nbytes) && (window <? dl + c_max_instr_len)) then 3
        else if (r_start =? align_start a start) && chainb dec (adjust a) dl 0 listed &&
-               forallb (fun '(o, _) => o <? r_size) listed
+               forallb (fun '(o, _) => o <? r_size) listed && complete dec (adjust a) dl listed
             then (match listing dec nbytes (adjust a) dl with
                   | Some (ml, ms) => if listed_eqb ml listed && (ms =? r_size) then 0 else 1
                   | None => 1
